@@ -3,6 +3,10 @@ package main
 import (
 	"fmt"
 	"go/ast"
+	"go/parser"
+	"go/token"
+	"io/fs"
+	"sort"
 	"go/constant"
 	"go/types"
 	"os"
@@ -100,7 +104,41 @@ func init() {
 			fatal("%s: no [%s] section", iniPath, prefix)
 		}
 		lf.raw("/-- [" + prefix + "] of docs/config/01-config.docker.ini: (lower-case key, value). -/\n")
-		lf.raw("def dockerIni : List (String × String) := [\n" + strings.Join(kv, ",\n") + "]\n")
+		lf.raw("def dockerIni : List (String × String) := [\n" + strings.Join(kv, ",\n") + "]\n\n")
+
+		// ---- the start-up order: the X.InitConfig() calls of initgin.InitAllConfig, in source order -----------------
+		order := big5InitOrder(filepath.Join(repo, "initgin", "init_all_config.go"), "InitAllConfig")
+		if len(order) == 0 {
+			fatal("initgin.InitAllConfig: no X.InitConfig() calls found")
+		}
+		var os_ []string
+		for _, o := range order {
+			os_ = append(os_, big5LeanStr(o))
+		}
+		lf.raw("/-- packages whose InitConfig() initgin.InitAllConfig calls, in call order. -/\n")
+		lf.raw("def initOrder : List String := [" + strings.Join(os_, ", ") + "]\n\n")
+
+		// ---- every call of a converter outside package types: (directory, function, converter) -----------------------
+		var cs []string
+		for _, c := range big5ConversionCallers(repo) {
+			cs = append(cs, fmt.Sprintf("  (%s, %s, %s)", big5LeanStr(c[0]), big5LeanStr(c[1]), big5LeanStr(c[2])))
+		}
+		lf.raw("/-- non-test call sites of types.Utf8ToBig5 / types.Big5ToUtf8 outside package types. -/\n")
+		lf.raw("def conversionCallers : List (String × String × String) := [\n" + strings.Join(cs, ",\n") + "]\n\n")
+
+		// ---- the first line of each table file (the loader drops line 1 unconditionally) -----------------------------
+		for _, v := range []struct{ lean, goName string }{{"b2uFirstLine", "BIG5_TO_UTF8"}, {"u2bFirstLine", "UTF8_TO_BIG5"}} {
+			tv := p.TypesInfo.Types[varInit(p, v.goName)]
+			b, err := os.ReadFile(filepath.Join(repo, constant.StringVal(tv.Value)))
+			if err != nil {
+				fatal("%v", err)
+			}
+			first, _, _ := strings.Cut(string(b), "\n")
+			if len(first) > 200 {
+				fatal("%s: first line longer than 200 bytes", v.goName)
+			}
+			lf.natList(v.lean, bytesOf(first))
+		}
 		lf.write(out)
 	})
 }
@@ -149,4 +187,86 @@ func big5LeanStr(s string) string {
 	}
 	b.WriteByte('"')
 	return b.String()
+}
+
+// big5InitOrder: the package names X of the calls X.InitConfig() in function fn of the file, in source order.
+func big5InitOrder(file, fn string) (order []string) {
+	fset := token.NewFileSet()
+	f, err := parser.ParseFile(fset, file, nil, 0)
+	if err != nil {
+		fatal("%v", err)
+	}
+	imported := map[string]bool{}
+	for _, im := range f.Imports {
+		path := strings.Trim(im.Path.Value, "\"")
+		name := path[strings.LastIndex(path, "/")+1:]
+		if im.Name != nil {
+			name = im.Name.Name
+		}
+		imported[name] = true
+	}
+	for _, d := range f.Decls {
+		fd, ok := d.(*ast.FuncDecl)
+		if !ok || fd.Name.Name != fn || fd.Body == nil {
+			continue
+		}
+		ast.Inspect(fd.Body, func(n ast.Node) bool {
+			if call, ok := n.(*ast.CallExpr); ok {
+				if sel, ok := call.Fun.(*ast.SelectorExpr); ok && sel.Sel.Name == "InitConfig" {
+					if id, ok := sel.X.(*ast.Ident); ok && imported[id.Name] {
+						order = append(order, id.Name)
+					}
+				}
+			}
+			return true
+		})
+	}
+	return order
+}
+
+// big5ConversionCallers: (directory, enclosing function, converter) of every non-test call types.Utf8ToBig5 /
+// types.Big5ToUtf8 outside package types (syntactic: the selector on an identifier named `types`).
+func big5ConversionCallers(repo string) (out [][3]string) {
+	_ = filepath.WalkDir(repo, func(path string, d fs.DirEntry, err error) error {
+		if err != nil {
+			return nil
+		}
+		if d.IsDir() {
+			if n := d.Name(); n == ".git" || n == "vendor" || n == "node_modules" || (strings.HasPrefix(n, ".") && path != repo) {
+				return filepath.SkipDir
+			}
+			return nil
+		}
+		if !strings.HasSuffix(path, ".go") || strings.HasSuffix(path, "_test.go") {
+			return nil
+		}
+		rel, _ := filepath.Rel(repo, filepath.Dir(path))
+		if rel == "types" {
+			return nil
+		}
+		fset := token.NewFileSet()
+		f, err := parser.ParseFile(fset, path, nil, 0)
+		if err != nil {
+			return nil
+		}
+		for _, decl := range f.Decls {
+			fd, ok := decl.(*ast.FuncDecl)
+			fname := "(package level)"
+			var node ast.Node = decl
+			if ok {
+				fname = fd.Name.Name
+			}
+			ast.Inspect(node, func(n ast.Node) bool {
+				if sel, ok := n.(*ast.SelectorExpr); ok {
+					if id, ok := sel.X.(*ast.Ident); ok && id.Name == "types" && (sel.Sel.Name == "Utf8ToBig5" || sel.Sel.Name == "Big5ToUtf8") {
+						out = append(out, [3]string{rel, fname, sel.Sel.Name})
+					}
+				}
+				return true
+			})
+		}
+		return nil
+	})
+	sort.Slice(out, func(i, j int) bool { return out[i][0]+out[i][1]+out[i][2] < out[j][0]+out[j][1]+out[j][2] })
+	return out
 }
